@@ -459,28 +459,113 @@ Lemma landed_new_calls k p p' :
   landed_on_mounted k p p' = match new_calls p p' with KMount t :: _ => mem_path t k | _ => false end.
 Proof. reflexivity. Qed.
 
-(* the instrumented run: per process the table as it last read it (None: it has not read it
-   yet); every mount that lands on a mounted mountpoint is recorded with who issued it, the
-   target, the table at the time of the call, and the table as the caller last read it *)
-Record stack_event := MkSE { se_first : bool; se_target : bytes; se_table : ktab; se_seen : option ktab }.
+(* the mount targets of a code *)
+Definition targets (c : list instr) : list bytes :=
+  flat_map (fun i => match i with IMountIf t _ => [t] | _ => [] end) c.
+Lemma targets_app a b : targets (a ++ b) = targets a ++ targets b.
+Proof. unfold targets. apply flat_map_app. Qed.
+Lemma targets_umounts l : targets (map IUmountOne l) = [].
+Proof. induction l; cbn; auto. Qed.
 
-Definition upd_seen (k : ktab) (before after_ : proc) (g : option ktab) : option ktab :=
-  match new_calls before after_ with KProbe :: _ => Some k | _ => g end.
-Definition stack_events (who : bool) (k : ktab) (before after_ : proc) (g : option ktab) : list stack_event :=
+Lemma targets_cons i r :
+  targets (i :: r) = match i with IMountIf t _ => t :: targets r | _ => targets r end.
+Proof. now destruct i. Qed.
+
+(* a step consumes a prefix of the targets; a mount consumes its own target *)
+Lemma step_proc_targets fuel : forall k p,
+  exists pre, targets (pc_code p) = pre ++ targets (pc_code (snd (fst (step_proc fuel k p)))) /\
+    forall t, pc_calls (snd (fst (step_proc fuel k p))) = pc_calls p ++ [KMount t] -> In t pre.
+Proof.
+  assert (NC : forall (calls : list call) c, calls = calls ++ [c] -> False).
+  { intros calls c E. apply (f_equal (@length _)) in E. rewrite app_length in E. cbn in E. lia. }
+  assert (NP : forall (calls : list call) c d, calls ++ [c] = calls ++ [d] -> c = d).
+  { intros calls c d E. apply app_inv_head in E. now injection E. }
+  assert (ID : forall p : proc, exists pre, targets (pc_code p) = pre ++ targets (pc_code p) /\
+                forall t, pc_calls p = pc_calls p ++ [KMount t] -> In t pre).
+  { intros p. exists []. split; [reflexivity|]. intros t E. now apply NC in E. }
+  assert (STOP : forall code cache calls,
+            exists pre, targets code = pre ++ targets (pc_code (MkProc [] cache true calls)) /\
+              forall t, pc_calls (MkProc [] cache true calls) = calls ++ [KMount t] -> In t pre).
+  { intros code cache calls. exists (targets code). cbn [pc_code pc_calls]. split.
+    - change (targets []) with (@nil bytes). now rewrite app_nil_r.
+    - intros t E. now apply NC in E. }
+  induction fuel as [|f IH]; intros k p.
+  - cbn [step_proc fst snd]. apply ID.
+  - cbn [step_proc]. destruct p as [code cache failed calls]. cbn [pc_failed pc_code pc_cache pc_calls].
+    destruct failed; [apply (ID (MkProc code cache true calls))|].
+    destruct code as [|i r]; [apply (ID (MkProc [] cache false calls))|].
+    destruct i as [|t rp|bld|t|]; rewrite targets_cons.
+    + exists []. cbn [fst snd pc_code pc_calls app]. split; [reflexivity|]. intros t E. apply NP in E. discriminate.
+    + destruct (mem_path t cache) eqn:M.
+      * destruct (IH k (MkProc r cache false calls)) as [pre [H1 H2]]. cbn [pc_code pc_calls] in *.
+        exists (t :: pre). split; [cbn [app]; now rewrite <- H1|]. intros t' E. right. now apply H2.
+      * exists [t]. cbn [fst snd pc_code pc_calls app]. split; [destruct rp; now rewrite ?targets_cons|].
+        intros t' E. apply NP in E. injection E as <-. now left.
+    + destruct (rev (Lex.sort (filter (at_or_below bld) cache))) as [|x l] eqn:E.
+      * cbn [fst snd]. apply STOP.
+      * destruct (IH k (MkProc (map IUmountOne (x :: l) ++ IProbe :: r) cache false calls)) as [pre [H1 H2]].
+        cbn [pc_code pc_calls] in *. exists pre. split; [|exact H2].
+        rewrite <- H1, targets_app, targets_umounts, targets_cons. reflexivity.
+    + destruct (kumount_abs k t) as [k'|] eqn:E.
+      * exists []. cbn [fst snd pc_code pc_calls app]. split; [reflexivity|]. intros t' E'. apply NP in E'. discriminate.
+      * cbn [fst snd]. destruct (STOP r cache (calls ++ [KUmount t false])) as [pre [H1 H2]].
+        exists pre. split; [exact H1|]. cbn [pc_calls] in *. intros t' E'. apply NP in E'. discriminate.
+    + cbn [fst snd]. apply STOP.
+Qed.
+Lemma step1_targets k p :
+  exists pre, targets (pc_code p) = pre ++ targets (pc_code (np k p)) /\
+    forall t, pc_calls (np k p) = pc_calls p ++ [KMount t] -> In t pre.
+Proof. apply step_proc_targets. Qed.
+
+Lemma remove_last_incl p t : incl (remove_last p t) t.
+Proof.
+  induction t as [|x r IH]; cbn [remove_last]; [apply incl_refl|].
+  destruct (beq x p && negb (mem_path p r)).
+  - now apply incl_tl, incl_refl.
+  - intros y [<-|Hy]; [now left|right; now apply IH].
+Qed.
+Lemma kumount_abs_incl k t k' : kumount_abs k t = Some k' -> incl k' k.
+Proof.
+  unfold kumount_abs. destruct (_ && _); [|discriminate]. intros E. injection E as <-. apply remove_last_incl.
+Qed.
+
+(* the instrumented run.  Per process a ghost: the table as the process last read it (None: it
+   has not read it yet) and the mount(2) calls (who, target) made by either process since then.
+   Every mount that lands on a mounted mountpoint is recorded with who issued it, the target,
+   the table at the time of the call, and the caller's ghost. *)
+Record ghost := MkG { g_seen : option ktab; g_since : list (bool * bytes) }.
+Record stack_event := MkSE {
+  se_first : bool; se_target : bytes; se_table : ktab;
+  se_seen : option ktab; se_since : list (bool * bytes) }.
+
+Definition upd_self (who : bool) (k : ktab) (before after_ : proc) (g : ghost) : ghost :=
   match new_calls before after_ with
-  | KMount t :: _ => if mem_path t k then [MkSE who t k g] else []
+  | KProbe :: _ => MkG (Some k) []
+  | KMount t :: _ => MkG (g_seen g) (g_since g ++ [(who, t)])
+  | _ => g
+  end.
+Definition upd_other (who : bool) (before after_ : proc) (g : ghost) : ghost :=
+  match new_calls before after_ with
+  | KMount t :: _ => MkG (g_seen g) (g_since g ++ [(who, t)])
+  | _ => g
+  end.
+Definition stack_events (who : bool) (k : ktab) (before after_ : proc) (g : ghost) : list stack_event :=
+  match new_calls before after_ with
+  | KMount t :: _ => if mem_path t k then [MkSE who t k (g_seen g) (g_since g)] else []
   | _ => []
   end.
 
-Fixpoint ileave_g (fuel : nat) (s : list bool) (k : ktab) (a b : proc) (ga gb : option ktab) : list stack_event :=
+Fixpoint ileave_g (fuel : nat) (s : list bool) (k : ktab) (a b : proc) (ga gb : ghost) : list stack_event :=
   match fuel with
   | O => []
   | S fuel' =>
     if finished a && finished b then [] else
     if pick s a b then
-      stack_events true k a (np k a) ga ++ ileave_g fuel' (stl s) (nk k a) (np k a) b (upd_seen k a (np k a) ga) gb
+      stack_events true k a (np k a) ga ++
+      ileave_g fuel' (stl s) (nk k a) (np k a) b (upd_self true k a (np k a) ga) (upd_other true a (np k a) gb)
     else
-      stack_events false k b (np k b) gb ++ ileave_g fuel' (stl s) (nk k b) a (np k b) ga (upd_seen k b (np k b) gb)
+      stack_events false k b (np k b) gb ++
+      ileave_g fuel' (stl s) (nk k b) a (np k b) (upd_other false b (np k b) ga) (upd_self false k b (np k b) gb)
   end.
 
 (* the instrumentation is faithful: the run flags stacking exactly when an event is recorded *)
@@ -496,83 +581,194 @@ Proof.
   induction f as [|f IH]; intros s k a b ga gb; [reflexivity|].
   cbn [ileave ileave_g]. destruct (finished a && finished b); [reflexivity|].
   destruct (pick s a b); cbn [ir_st].
-  - rewrite (IH _ _ _ _ (upd_seen k a (np k a) ga) gb), (stack_events_landed true k a (np k a) ga).
+  - rewrite (IH _ _ _ _ (upd_self true k a (np k a) ga) (upd_other true a (np k a) gb)),
+            (stack_events_landed true k a (np k a) ga).
     destruct (stack_events true k a (np k a) ga); reflexivity.
-  - rewrite (IH _ _ _ _ ga (upd_seen k b (np k b) gb)), (stack_events_landed false k b (np k b) gb).
+  - rewrite (IH _ _ _ _ (upd_other false b (np k b) ga) (upd_self false k b (np k b) gb)),
+            (stack_events_landed false k b (np k b) gb).
     destruct (stack_events false k b (np k b) gb); reflexivity.
 Qed.
 
-(* the ghost is the cache *)
-Definition seen_ok (g : option ktab) (p : proc) : Prop := forall kr, g = Some kr -> pc_cache p = kr.
+(* the invariant tying a ghost to its process: the table last read is the cache; every
+   mountpoint now in the table was in the table last read or has been mounted since *)
+Definition ghost_ok (k : ktab) (g : ghost) (p : proc) : Prop :=
+  (forall kr, g_seen g = Some kr -> pc_cache p = kr) /\
+  (forall kr, g_seen g = Some kr -> forall x, In x k -> In x kr \/ exists w, In (w, x) (g_since g)).
 
-Lemma upd_seen_ok k p g : seen_ok g p -> seen_ok (upd_seen k p (np k p) g) (np k p).
+Lemma ghost_ok_self who k p g : ghost_ok k g p ->
+  ghost_ok (nk k p) (upd_self who k p (np k p) g) (np k p).
 Proof.
-  intros H. unfold upd_seen, new_calls.
-  destruct (step1_kind k p) as [H1 H2 H3|H1 H2 H3|t H1 H2 H3 H4|t ok H1 H2 H3]; rewrite H1.
-  - rewrite skipn_exact. intros kr E. rewrite H3. now apply H.
-  - rewrite skipn_app_exact. intros kr E. injection E as <-. exact H3.
-  - rewrite skipn_app_exact. intros kr E. rewrite H3. now apply H.
-  - rewrite skipn_app_exact. intros kr E. rewrite H2. now apply H.
+  intros [H1 H2]. unfold upd_self, new_calls.
+  destruct (step1_kind k p) as [E1 E2 E3|E1 E2 E3|t E1 E2 E3 E4|t ok E1 E2 E3]; rewrite E1;
+    rewrite ?skipn_exact, ?skipn_app_exact; split; cbn [g_seen g_since].
+  - intros kr E. rewrite E3. now apply H1.
+  - intros kr E x Hx. rewrite E2 in Hx. now apply (H2 kr E).
+  - intros kr E. injection E as <-. exact E3.
+  - intros kr E x Hx. injection E as <-. rewrite E2 in Hx. now left.
+  - intros kr E. rewrite E3. now apply H1.
+  - intros kr E x Hx. rewrite E2 in Hx. apply in_app_or in Hx as [Hx|[<-|[]]].
+    + destruct (H2 kr E x Hx) as [H|[w H]]; [now left|]. right. exists w. apply in_or_app. now left.
+    + right. exists who. apply in_or_app. right. now left.
+  - intros kr E. rewrite E2. now apply H1.
+  - intros kr E x Hx. apply (H2 kr E). destruct ok; [|now rewrite E3 in Hx].
+    now apply (kumount_abs_incl _ _ _ E3).
+Qed.
+Lemma ghost_ok_other who k p g q : ghost_ok k g q ->
+  ghost_ok (nk k p) (upd_other who p (np k p) g) q.
+Proof.
+  intros [H1 H2]. unfold upd_other, new_calls.
+  destruct (step1_kind k p) as [E1 E2 E3|E1 E2 E3|t E1 E2 E3 E4|t ok E1 E2 E3]; rewrite E1;
+    rewrite ?skipn_exact, ?skipn_app_exact; split; cbn [g_seen g_since]; try exact H1.
+  - intros kr E x Hx. rewrite E2 in Hx. now apply (H2 kr E).
+  - intros kr E x Hx. rewrite E2 in Hx. now apply (H2 kr E).
+  - intros kr E x Hx. rewrite E2 in Hx. apply in_app_or in Hx as [Hx|[<-|[]]].
+    + destruct (H2 kr E x Hx) as [H|[w H]]; [now left|]. right. exists w. apply in_or_app. now left.
+    + right. exists who. apply in_or_app. right. now left.
+  - intros kr E x Hx. apply (H2 kr E). destruct ok; [|now rewrite E3 in Hx].
+    now apply (kumount_abs_incl _ _ _ E3).
 Qed.
 
+(* a mount that lands on a mounted mountpoint: the mountpoint is in the table now, was not in
+   the table the caller last read, and a mount(2) of it has been made since that read *)
 Definition stale_event (e : stack_event) : Prop :=
   mem_path (se_target e) (se_table e) = true /\
-  forall kr, se_seen e = Some kr -> mem_path (se_target e) kr = false.
+  forall kr, se_seen e = Some kr ->
+    mem_path (se_target e) kr = false /\ exists w, In (w, se_target e) (se_since e).
 
-Lemma stack_events_stale who k p g : seen_ok g p ->
+Lemma stack_events_stale who k p g : ghost_ok k g p ->
   forall e, In e (stack_events who k p (np k p) g) -> stale_event e.
 Proof.
-  intros H e. unfold stack_events, new_calls.
-  destruct (step1_kind k p) as [H1 H2 H3|H1 H2 H3|t H1 H2 H3 H4|t ok H1 H2 H3]; rewrite H1;
+  intros [H1 H2] e. unfold stack_events, new_calls.
+  destruct (step1_kind k p) as [E1 E2 E3|E1 E2 E3|t E1 E2 E3 E4|t ok E1 E2 E3]; rewrite E1;
     rewrite ?skipn_exact, ?skipn_app_exact; try contradiction.
   destruct (mem_path t k) eqn:M; [|contradiction].
-  intros [<-|[]]. split; [exact M|]. cbn [se_target se_seen]. intros kr E.
-  now rewrite <- (H kr E).
+  intros [<-|[]]. split; [exact M|]. cbn [se_target se_seen se_since]. intros kr E.
+  rewrite <- (H1 kr E). split; [exact E4|].
+  destruct (H2 kr E t) as [H|H]; [now apply mem_path_In| |exact H].
+  exfalso. rewrite <- (H1 kr E) in H. apply mem_path_In in H. congruence.
 Qed.
 
-Lemma ileave_g_stale f : forall s k a b ga gb, seen_ok ga a -> seen_ok gb b ->
+Lemma ileave_g_stale f : forall s k a b ga gb, ghost_ok k ga a -> ghost_ok k gb b ->
   forall e, In e (ileave_g f s k a b ga gb) -> stale_event e.
 Proof.
   induction f as [|f IH]; intros s k a b ga gb Ha Hb e; [contradiction|].
   cbn [ileave_g]. destruct (finished a && finished b); [contradiction|].
   destruct (pick s a b); intros Hin; apply in_app_or in Hin as [Hin|Hin].
   - exact (stack_events_stale true k a ga Ha e Hin).
-  - eapply IH; [| |exact Hin]; [now apply upd_seen_ok|exact Hb].
+  - eapply IH; [| |exact Hin]; [now apply ghost_ok_self|now apply ghost_ok_other].
   - exact (stack_events_stale false k b gb Hb e Hin).
-  - eapply IH; [| |exact Hin]; [exact Ha|now apply upd_seen_ok].
+  - eapply IH; [| |exact Hin]; [now apply ghost_ok_other|now apply ghost_ok_self].
 Qed.
 
 (* the events of a whole run *)
+Definition g0 : ghost := MkG None [].
 Definition run_events (s : list bool) (k : ktab) (ca cb : list instr) : list stack_event :=
-  ileave_g (rs_fuel k ca cb) s k (start ca) (start cb) None None.
+  ileave_g (rs_fuel k ca cb) s k (start ca) (start cb) g0 g0.
 
 Lemma run_events_stacked s k ca cb :
   tr_stacked (run_trace (run_sched s k ca cb)) = negb (match run_events s k ca cb with [] => true | _ => false end).
 Proof. rewrite run_trace_rs. cbn [tr_stacked]. apply ileave_g_st. Qed.
 
+Lemma g0_ok k p : ghost_ok k g0 p.
+Proof. split; intros kr E; discriminate. Qed.
+
 Theorem stack_only_if_stale : forall s k ca cb e, In e (run_events s k ca cb) -> stale_event e.
-Proof. intros s k ca cb. apply ileave_g_stale; intros kr E; discriminate. Qed.
+Proof. intros s k ca cb. apply ileave_g_stale; apply g0_ok. Qed.
+
+(* codes without repeated mount targets: the mount made since the read is not the caller's *)
+Definition own_ok (who : bool) (g : ghost) (p : proc) : Prop :=
+  NoDup (targets (pc_code p)) /\ forall x, In (who, x) (g_since g) -> ~ In x (targets (pc_code p)).
+
+Lemma nodup_app_in {A} (pre l : list A) x : NoDup (pre ++ l) -> In x pre -> ~ In x l.
+Proof.
+  induction pre as [|y pre IH]; cbn; [contradiction|]. intros ND [->|Hx].
+  - inversion ND as [|? ? Hn _]; subst. intros H. apply Hn. apply in_or_app. now right.
+  - inversion ND; subst. now apply IH.
+Qed.
+Lemma nodup_app_r {A} (a b : list A) : NoDup (a ++ b) -> NoDup b.
+Proof. induction a as [|x a IH]; cbn; auto. intros H. inversion H; auto. Qed.
+
+Lemma own_ok_self who k p g : own_ok who g p -> own_ok who (upd_self who k p (np k p) g) (np k p).
+Proof.
+  intros [ND H]. destruct (step1_targets k p) as [pre [HT HM]]. rewrite HT in ND.
+  split; [now apply nodup_app_r in ND|].
+  assert (HS : forall x, In (who, x) (g_since g) -> ~ In x (targets (pc_code (np k p)))).
+  { intros x Hx Hin. apply (H x Hx). rewrite HT. apply in_or_app. now right. }
+  unfold upd_self, new_calls.
+  destruct (step1_kind k p) as [E1 E2 E3|E1 E2 E3|t E1 E2 E3 E4|t ok E1 E2 E3]; rewrite E1;
+    rewrite ?skipn_exact, ?skipn_app_exact; cbn [g_since]; auto.
+  intros x Hx. apply in_app_or in Hx as [Hx|[Hx|[]]]; [now apply HS|].
+    injection Hx as <-. apply (nodup_app_in _ _ _ ND). now apply HM.
+Qed.
+Lemma own_ok_other who k p g q : own_ok who g q -> own_ok who (upd_other (negb who) p (np k p) g) q.
+Proof.
+  intros [ND H]. split; [exact ND|]. unfold upd_other.
+  destruct (new_calls p (np k p)) as [|[|t|t ok] ?]; auto. cbn [g_since].
+  intros x Hx. apply in_app_or in Hx as [Hx|[Hx|[]]]; [now apply H|].
+  injection Hx as Hw _. now destruct who.
+Qed.
+
+Lemma stack_events_other who k p g : own_ok who g p ->
+  forall e, In e (stack_events who k p (np k p) g) -> ~ In (se_first e, se_target e) (se_since e).
+Proof.
+  intros [ND H] e. destruct (step1_targets k p) as [pre [HT HM]].
+  unfold stack_events, new_calls.
+  destruct (step1_kind k p) as [E1 E2 E3|E1 E2 E3|t E1 E2 E3 E4|t ok E1 E2 E3]; rewrite E1;
+    rewrite ?skipn_exact, ?skipn_app_exact; try contradiction.
+  destruct (mem_path t k); [|contradiction]. intros [<-|[]]. cbn [se_first se_target se_since].
+  intros Hin. apply (H t Hin). rewrite HT. apply in_or_app. left. now apply HM.
+Qed.
+
+Lemma ileave_g_other f : forall s k a b ga gb, own_ok true ga a -> own_ok false gb b ->
+  forall e, In e (ileave_g f s k a b ga gb) -> ~ In (se_first e, se_target e) (se_since e).
+Proof.
+  induction f as [|f IH]; intros s k a b ga gb Ha Hb e; [contradiction|].
+  cbn [ileave_g]. destruct (finished a && finished b); [contradiction|].
+  destruct (pick s a b); intros Hin; apply in_app_or in Hin as [Hin|Hin].
+  - exact (stack_events_other true k a ga Ha e Hin).
+  - eapply IH; [| |exact Hin]; [now apply own_ok_self|]. now apply (own_ok_other false).
+  - exact (stack_events_other false k b gb Hb e Hin).
+  - eapply IH; [| |exact Hin]; [|now apply own_ok_self]. now apply (own_ok_other true).
+Qed.
+
+Theorem stack_only_if_stale_other : forall s k ca cb e,
+  NoDup (targets ca) -> NoDup (targets cb) -> In e (run_events s k ca cb) ->
+  forall kr, se_seen e = Some kr ->
+    mem_path (se_target e) (se_table e) = true /\ mem_path (se_target e) kr = false /\
+    In (negb (se_first e), se_target e) (se_since e).
+Proof.
+  intros s k ca cb e Na Nb Hin kr E.
+  destruct (stack_only_if_stale _ _ _ _ _ Hin) as [H1 H2]. destruct (H2 kr E) as [H3 [w H4]].
+  assert (H5 : ~ In (se_first e, se_target e) (se_since e)).
+  { revert Hin. apply ileave_g_other; split; auto; intros x []. }
+  split; [exact H1|]. split; [exact H3|].
+  destruct w, (se_first e); cbn [negb]; auto; contradiction.
+Qed.
 
 (* a process whose code starts with a probe has read the table before it mounts anything *)
-Definition has_read (g : option ktab) (p : proc) (c0 : list instr) : Prop :=
-  g = None -> pc_failed p = false /\ pc_code p = IProbe :: c0.
+Definition has_read (g : ghost) (p : proc) (c0 : list instr) : Prop :=
+  g_seen g = None -> pc_failed p = false /\ pc_code p = IProbe :: c0.
 
-Lemma upd_seen_has_read k p g c0 : has_read g p c0 -> has_read (upd_seen k p (np k p) g) (np k p) c0.
+Lemma has_read_self who k p g c0 : has_read g p c0 -> has_read (upd_self who k p (np k p) g) (np k p) c0.
 Proof.
-  intros H. destruct g as [kr|].
-  - intros E. exfalso. unfold upd_seen in E. destruct (new_calls p (np k p)) as [|[|?|? ?] ?]; discriminate.
-  - destruct (H eq_refl) as [F C]. unfold has_read, upd_seen, new_calls, np, step1, code_fuel.
+  intros H. destruct (g_seen g) as [kr|] eqn:G.
+  - intros E. exfalso. unfold upd_self in E. destruct (new_calls p (np k p)) as [|[|?|? ?] ?]; cbn in E; congruence.
+  - destruct (H G) as [F C]. unfold has_read, upd_self, new_calls, np, step1, code_fuel.
     destruct p as [code cache failed calls]. cbn [pc_failed pc_code pc_calls pc_cache] in *. subst.
     cbn [step_proc length Nat.add pc_failed pc_code pc_calls pc_cache fst snd].
     rewrite skipn_app_exact. discriminate.
 Qed.
+Lemma has_read_other who k p g q c0 : has_read g q c0 -> has_read (upd_other who p (np k p) g) q c0.
+Proof.
+  intros H E. apply H. unfold upd_other in E. now destruct (new_calls p (np k p)) as [|[|?|? ?] ?].
+Qed.
 Lemma stack_events_has_read who k p g c0 : has_read g p c0 ->
   forall e, In e (stack_events who k p (np k p) g) -> se_seen e <> None.
 Proof.
-  intros H e. destruct g as [kr|].
+  intros H e. destruct (g_seen g) as [kr|] eqn:G.
   - unfold stack_events. destruct (new_calls p (np k p)) as [|[|t|? ?] ?]; try contradiction.
-    destruct (mem_path t k); [|contradiction]. intros [<-|[]]. discriminate.
-  - destruct (H eq_refl) as [F C]. unfold stack_events, new_calls, np, step1, code_fuel.
+    destruct (mem_path t k); [|contradiction]. intros [<-|[]]. cbn. congruence.
+  - destruct (H G) as [F C]. unfold stack_events, new_calls, np, step1, code_fuel.
     destruct p as [code cache failed calls]. cbn [pc_failed pc_code pc_calls pc_cache] in *. subst.
     cbn [step_proc length Nat.add pc_failed pc_code pc_calls pc_cache fst snd].
     rewrite skipn_app_exact. contradiction.
@@ -584,28 +780,24 @@ Proof.
   cbn [ileave_g]. destruct (finished a && finished b); [contradiction|].
   destruct (pick s a b); intros Hin; apply in_app_or in Hin as [Hin|Hin].
   - exact (stack_events_has_read true k a ga ca0 Ha e Hin).
-  - eapply IH; [| |exact Hin]; [now apply upd_seen_has_read|exact Hb].
+  - eapply IH; [| |exact Hin]; [now apply has_read_self|now apply has_read_other].
   - exact (stack_events_has_read false k b gb cb0 Hb e Hin).
-  - eapply IH; [| |exact Hin]; [exact Ha|now apply upd_seen_has_read].
+  - eapply IH; [| |exact Hin]; [now apply has_read_other|now apply has_read_self].
 Qed.
 
 Theorem stack_only_if_stale_read : forall s k ca cb e,
-  In e (run_events s k (IProbe :: ca) (IProbe :: cb)) ->
-  exists kr, se_seen e = Some kr /\ mem_path (se_target e) kr = false /\ mem_path (se_target e) (se_table e) = true.
+  In e (run_events s k (IProbe :: ca) (IProbe :: cb)) -> exists kr, se_seen e = Some kr.
 Proof.
   intros s k ca cb e Hin.
-  pose proof (stack_only_if_stale _ _ _ _ _ Hin) as [H1 H2].
   assert (H3 : se_seen e <> None).
   { revert Hin. apply (ileave_g_has_read _ ca cb); intros _; split; reflexivity. }
-  destruct (se_seen e) as [kr|]; [|congruence]. exists kr. auto.
+  destruct (se_seen e) as [kr|]; [|congruence]. now exists kr.
 Qed.
 
 (* ================================================================== Part 3: probe / mount codes *)
 Definition mo_instr (i : instr) : bool :=
   match i with IProbe | IMountIf _ _ | IFail => true | _ => false end.
 Definition mshape (c : list instr) : bool := forallb mo_instr c.
-Definition targets (c : list instr) : list bytes :=
-  flat_map (fun i => match i with IMountIf t _ => [t] | _ => [] end) c.
 (* the targets the code gets to: those before the first IFail *)
 Fixpoint rtargets (c : list instr) : list bytes :=
   match c with
@@ -621,8 +813,6 @@ Definition skippable (cache : ktab) (i : instr) : bool :=
   match i with IMountIf t _ => mem_path t cache | _ => false end.
 Definition rtp (p : proc) : list bytes := if pc_failed p then [] else rtargets (pc_code p).
 
-Lemma targets_app a b : targets (a ++ b) = targets a ++ targets b.
-Proof. unfold targets. apply flat_map_app. Qed.
 Lemma rtargets_skip cache sk rest : forallb (skippable cache) sk = true ->
   rtargets (sk ++ rest) = targets sk ++ rtargets rest.
 Proof.
@@ -781,9 +971,6 @@ Qed.
 Definition solo_inv (k : ktab) (p : proc) : Prop :=
   NoDup k /\ NoDup (targets (pc_code p)) /\
   forall t, In t (exposed (pc_code p)) -> In t k -> In t (pc_cache p).
-
-Lemma nodup_app_r {A} (a b : list A) : NoDup (a ++ b) -> NoDup b.
-Proof. induction a as [|x a IH]; cbn; auto. intros H. inversion H; auto. Qed.
 
 Lemma mo_step_solo k p k' p' : mo_step k p k' p' -> solo_inv k p ->
   solo_inv k' p' /\ landed_on_mounted k p p' = false.
